@@ -55,6 +55,9 @@ func Num(t *rapid.T) float64 {
 		d := pick(t, "delta", []float64{5e-10, -5e-10, 2e-9, -2e-9, 1, -1})
 		return x + d
 	case 8:
+		if rapid.IntRange(0, 2).Draw(t, "nonfinite") == 0 {
+			return pick(t, "nf", NonFinite) // callers that exclude NaN / Inf replace it
+		}
 		return float64(rapid.IntRange(-1000, 1000).Draw(t, "int"))
 	default:
 		return rapid.Float64().Draw(t, "f64")
